@@ -268,6 +268,14 @@ def run(ctx):
             continue
         ctx.ob("R13.4", "%s-via-popen" % term, PP in M.local_closure(prog, [f.path]), f.loc(0), "Pipeline::%s starts the stages through Pipeline::popen" % term)
 
+    # join / capture return only after *all* commands have exited: the remaining Popens are waited for when the vector
+    # is dropped, which requires that these terminators never detach what they start
+    for meth in ("builder::pipeline::Pipeline::join", "builder::pipeline::Pipeline::capture"):
+        f_ = prog.fns[meth]
+        det = [p_ for p_ in M.local_closure(prog, [meth]) if p_ in ("builder::exec::Exec::detached", "popen::Popen::detach")]
+        ctx.ob("R13.4", "%s.waits-for-all-stages" % meth.split("::")[-1], not det, f_.loc(0),
+               "Pipeline::%s must leave the stages non-detached (reaches %s): only then does dropping the Vec<Popen> wait for every command before the call returns" % (meth.split("::")[-1], det))
+
     # ---- R13.5 what the communicator gets ----------------------------------------------------
     sc = prog.one("builder::pipeline::Pipeline::setup_communicate")
     Ts = M.Terms(sc)
